@@ -18,6 +18,7 @@ import Bmc.Driver.Sdr
 import Bmc.Driver.Enum
 import Bmc.Driver.Time
 import Bmc.Driver.Conc
+import Bmc.Driver.Api
 open Bmc.Driver
 
 def decTables : List (String × DecFn) := decTableBasic ++ decTableCore ++ decTableSess ++ decTableDcmi ++ decTableSdr ++ decTableSetup
@@ -58,6 +59,7 @@ def step (line : String) : String :=
   | id :: _cls :: "dcmi" :: args => s!"{id} {evalDcmi args}"
   | id :: _cls :: "time" :: args => s!"{id} {evalTime args}"
   | id :: _cls :: "conc" :: args => s!"{id} {evalConc args}"
+  | id :: _cls :: "api" :: args => s!"{id} {evalApi args}"
   | id :: _ => s!"{id} bad-op"
   | [] => ""
 
